@@ -1,5 +1,5 @@
 # replay of a bounded stand-in violation (C09/C10): re-run native/c09_engine.py
 import sys
-print('bosonic gates: run([p1,p2]) gives [-0.0984, 1.0, -0.0673, 1.0, 0.5851, 1.0, 0.0587, 1.0] but the concatenated program gives [-0.0984, 1.0482, -0.0673, 1.2526, 0.5851, 0.915, 0.0587, 1.1551]')
+print('C10: re(q) of a measured parameter with outcome (0.3+0.4j) evaluates to (0.3+0.4j), the function of the outcome is (0.3+0j)')
 print('REPLAY-VIOLATION')
 sys.exit(1)
